@@ -124,6 +124,10 @@ class Gen:
                 child["after"] = rng.choice(DELAYS)
             elif rng.random() < 0.05:
                 child["after"] = rng.choice([40, 64])   # long start delays (absolute dates could lie in the past)
+            if names[:-1] and rng.random() < 0.12:
+                # waits for an earlier sibling and does not handle what it gets
+                child["ops"].insert(rng.randint(0, len(child["ops"])), {
+                    "op": "await_task", "task": rng.choice(names[:-1]), "reraise": True})
             children.append(child)
         op["children"] = children
         body = []
